@@ -1008,7 +1008,8 @@ def rotate_shift_mask_simplifier(a, b):
     lshift_ = a_01.args[0]
     rshift_ = a_11.args[0]
     bitwidth = lshift_ + rshift_
-    if bitwidth not in (32, 64):
+    if bitwidth not in (32, 64) or bitwidth != a.size():
+        # the two shifts only make a rotation when their amounts add up to the width of the value
         return None
 
     # is the second argument a mask?
